@@ -27,6 +27,8 @@ def build_dfa(src):
         rng = random.Random(src["seed"])
         S = rng.choice(src.get("alphabets", ["a", "ab", "ab", "abc"]))
         D = U.random_dfa(rng, rng.randint(1, src.get("maxk", 6)), S)
+    elif src["kind"] == "late_split_dfa":
+        return U.late_split_dfa(random.Random(src["seed"]))
     else:
         raise ValueError(src)
     pool = src.get("pool", 0)
@@ -43,6 +45,9 @@ def dfa_srcs(task):
         for code in range(task["lo"], task["hi"], task.get("stride", 1)):
             yield {"kind": "exh_dfa", "k": task["k"], "S": task["S"], "code": code, "pool": task.get("pool", 0),
                    "perm": code % 7}
+    elif task["kind"] == "late_split_dfa":
+        for i in range(task["count"]):
+            yield {"kind": "late_split_dfa", "seed": task["seed"] * 100000 + i}
     elif task["kind"] == "rnd_dfa":
         for i in range(task["count"]):
             yield {"kind": "rnd_dfa", "seed": task["seed"] * 100000 + i, "pool": i % 6, "perm": i % 11,
